@@ -66,6 +66,10 @@ func TestC05(t *testing.T) {
 
 				rng := rand.New(rand.NewPCG(uint64(c.Seed)+7, uint64(k)))
 				synctest.Test(t, func(*testing.T) { slowWatchScenario(c, rng, k) })
+
+				if k%2 == 0 {
+					synctest.Test(t, func(*testing.T) { lateRegistrationScenario(c, rand.New(rand.NewPCG(uint64(c.Seed)+8, uint64(k))), k) })
+				}
 			}()
 		}
 
@@ -133,6 +137,27 @@ func slowWatchScenario(c *vk.C, rng *rand.Rand, k int) {
 
 		_ = w.Write(gp.WithNoGate(ctx), rtp.WCreate, gp.Key{NS: kl.NS, Type: kl.Type, ID: "x"}, "")
 
+		// every other scenario: changes of the kind that is watched already land in the same moment, before and after the release - they
+		// are in flight (not yet handed to the controllers) when the new watch delivers its first, content-free batches
+		if k%2 == 1 {
+			for i, id := range []string{"a", "b", "c", "a"} {
+				if i == 2 {
+					released.Store(true)
+				}
+
+				op := rtp.WUpdate
+				if w.Px.Shadow(gp.Key{NS: k0.NS, Type: k0.Type, ID: id}) == nil {
+					op = rtp.WCreate
+				}
+
+				_ = w.Write(gp.WithNoGate(ctx), op, gp.Key{NS: k0.NS, Type: k0.Type, ID: id}, "")
+
+				realPause(rng.IntN(60))
+			}
+
+			c.Count("slow_watch_with_changes_in_flight", 1)
+		}
+
 		released.Store(true)
 	}()
 
@@ -161,6 +186,85 @@ func slowWatchScenario(c *vk.C, rng *rand.Rand, k int) {
 
 	for _, p := range problems {
 		c.Violation(p.Sig, map[string]any{"scenario": "slow-watch", "k": k, "config": cfg, "problem": p, "wakes": w.Wakes(), "log": w.Px.Log()})
+	}
+}
+
+// lateRegistrationScenario: a queue controller is running on primary kind K0; a second controller with inputs on kinds nobody watches
+// yet is registered after the start and its registration is held for a (real-time) moment inside its Inputs() call. Meanwhile primary
+// inputs are created, so their notifications are in flight - taken in by the runtime, not yet handed to the controller - when the
+// registration goes on and every new watch delivers its first, content-free batch (a bookmark). Then nothing more happens: at
+// quiescence every primary must have been reconciled on its current value.
+func lateRegistrationScenario(c *vk.C, rng *rand.Rand, k int) {
+	k0 := rtp.Kinds[0]
+
+	var entered, release atomic.Bool
+
+	late := rtp.CtrlCfg{Name: "L", Late: true, LateAt: -1, InputsHook: func() {
+		if entered.CompareAndSwap(false, true) {
+			for i := 0; i < 100_000 && !release.Load(); i++ {
+				realPause(20)
+			}
+		}
+	}}
+
+	for _, kd := range rtp.Kinds[1:] {
+		late.Inputs = append(late.Inputs, controller.Input{Namespace: kd.NS, Type: kd.Type, Kind: controller.InputWeak})
+	}
+
+	cfg := rtp.Cfg{MaxDelay: 0, NoGateOnReads: true, Ctrls: []rtp.CtrlCfg{late},
+		QCtrls: []rtp.QCfg{{Name: "Q", Inputs: []controller.Input{{Namespace: k0.NS, Type: k0.Type, Kind: controller.InputQPrimary}}, Concurrency: uint(1 + rng.IntN(2)), Busy: []int{rng.IntN(3)}}}}
+
+	w, err := rtp.NewWorld(rng, cfg)
+	if err != nil {
+		c.Violation("world-setup-failed", err.Error())
+
+		return
+	}
+
+	ctx, cancel := context.WithCancel(context.Background())
+	defer cancel()
+
+	w.Run(ctx)
+	rtp.Quiesce(time.Second)
+
+	regDone := make(chan struct{})
+
+	go func() {
+		defer close(regDone)
+
+		w.RegisterLate()
+	}()
+
+	for i := 0; i < 100_000 && !entered.Load(); i++ {
+		realPause(20)
+	}
+
+	ids := []string{"a", "b", "c", "d"}[:2+rng.IntN(3)]
+	for _, id := range ids {
+		_ = w.Write(gp.WithNoGate(ctx), rtp.WCreate, gp.Key{NS: k0.NS, Type: k0.Type, ID: id}, "")
+
+		realPause(rng.IntN(200))
+	}
+
+	realPause(200 + rng.IntN(3000)) // the notifications reach the runtime
+
+	release.Store(true)
+	<-regDone
+
+	rtp.Quiesce(30 * time.Minute)
+
+	problems := rtp.CheckWakeups(w, func(string) bool { return false })
+
+	c.Count("late_registrations_with_changes_in_flight", 1)
+	c.Count("quiescent_points", 1)
+	c.Case(vk.Hash("late-registration", k, len(ids)), entered.Load())
+
+	cancel()
+	w.WaitRun()
+	synctest.Wait()
+
+	for _, p := range problems {
+		c.Violation(p.Sig, map[string]any{"scenario": "late-registration", "k": k, "problem": p, "wakes": w.Wakes(), "log": w.Px.Log()})
 	}
 }
 
